@@ -61,11 +61,12 @@ CHECKS = {
        "preprocess_file by differential execution (exhaustive small scope + random). Macro uses: for every classification of word characters, every "
        "table and every line written as words and separators, the substitution scan replaces exactly the words found in the table by their values, "
        "character for character, and leaves a line that does not spell the name as a word of its own unchanged (C08/Expand.v: one macro for an object-like "
-       "macro, parameter/argument pairs for the body of a function-like one; run against preprocess_file on every run). The scan of call arguments "
-       "(nested parentheses, literals) and the indexing of declarations per region are checked against a reference preprocessor.",
+       "macro, parameter/argument pairs for the body of a function-like one); the arguments of a call -- any number, nested parentheses/brackets and "
+       "literals with commas inside -- are read back exactly and the call becomes the body with the parameters replaced, followed by the rest of the "
+       "line (C08/Args.v); both run against preprocess_file on every run. The indexing of declarations per region is checked against a reference preprocessor.",
   note="Trusted: Coq kernel, vm_compute, differential harness, reference preprocessor. Hypotheses: well-formed conditional structure "
        "(refuted without it), names used as values have integer bodies, no redefinition. Condition text rewriting and the "
-       "argument scan of function-like macro calls are not modelled in Coq (differential only); the whole-word substitution is (C08/Expand.v, ASCII word characters in the differential).",
+       "search for the macro name in front of a call are not modelled in Coq (differential only); the whole-word substitution and the argument scan are (C08/Expand.v, C08/Args.v; ASCII word characters in the differential).",
   technique="Rocq proof (simulation/refinement between two state machines, invariant by induction over directive sequences) + exhaustive small-scope differential",
   design="4/C08"),
  "C17": dict(
@@ -228,7 +229,12 @@ CHECKS = {
        "involved, the named parameter under `keyword=`, and the slot after it for the next positional argument; a comparison `a == b` is never read "
        "as a keyword, whatever the parameters are called; the value of a named constant is read back whole (up to blanks) for every well-formed value "
        "-- balanced parentheses and brackets, no comma or `!` outside them -- whatever follows it, also behind the shape of an array constant (model of "
-       "read_parameter_value, run against the function itself). The models are validated against the "
+       "read_parameter_value, run against the function itself); the entities of a declaration -- any number, with array specifications, constructors and "
+       "initialisations, commas only inside parentheses/brackets -- are read back one by one, in order, without the blanks around them (model of "
+       "separate_def_list, run against the function itself); the argument index itself is derived from the raw line: behind any text and an opening "
+       "parenthesis, with any arguments written so far (literals holding commas/parentheses/the other quote, nested calls, sections and constructors "
+       "with commas of their own), the backward walk of get_paren_level followed by strip_strings and the comma count gives the number of arguments "
+       "written minus one (C11/Level.v, run against both functions). The models are validated against the "
        "implementation (recorded add_doc/add_scope/add_variable events; activeParameter of serve_signature). Restating type, selector, attributes, name, "
        "PARAMETER value, documentation, argument order and per-argument declarations is checked by an oracle on generated modules.",
   note="Partial. Trusted: Coq kernel, vm_compute, trace validation, the generator and the normalising comparison. Declaration readers/renderers are oracle-only.",
